@@ -18,7 +18,7 @@ attribute [awp_simp] Prog.perform P.rest P.peek P.peekNext P.advance P.advance_ 
 theorem isWhitespace_nl : isWhitespace '\n' = true := by decide
 
 /-- close the leaf facts left by `awp_auto` -/
-macro "awp_done" : tactic => `(tactic| all_goals (first | (simp_all; done) | grind))
+macro "awp_done" : tactic => `(tactic| all_goals (first | (simp_all [isWhitespace_nl, isXidContinue_nl, isIdentContinue_nl, isUnicodeNameStart_nl, isAsciiDigit_nl]; done) | grind))
 
 /-- the program respects the discipline from every text, whatever it returns and leaves -/
 def Safe {α} (p : Prog α) : Prop := ∀ r, awp p (fun _ _ lag => lag = false) r false
